@@ -87,3 +87,27 @@ pub fn res_code<X>(r: &Option<Result<X, graphrs::Error>>) -> i64 {
         Some(Err(e)) => kind_code(&e.kind),
     }
 }
+
+/// run a closure on a fresh thread with a wall-clock limit: Some(Some(r)) on return,
+/// Some(None) when it panicked, None when it did not finish in time (the thread is
+/// abandoned; the process exits with `process::exit` at the end of the run).
+pub fn guard_t<R: Send + 'static, F: FnOnce() -> R + Send + 'static>(ms: u64, f: F) -> Option<Option<R>> {
+    let (tx, rx) = std::sync::mpsc::channel();
+    std::thread::Builder::new()
+        .stack_size(64 << 20)
+        .spawn(move || {
+            let r = std::panic::catch_unwind(std::panic::AssertUnwindSafe(f)).ok();
+            let _ = tx.send(r);
+        })
+        .expect("spawn");
+    match rx.recv_timeout(std::time::Duration::from_millis(ms)) {
+        Ok(r) => Some(r),
+        Err(_) => None,
+    }
+}
+
+/// exact value of a finite f64 as a pair of decimal strings is not needed: floats are
+/// printed as the hex of their bits (fmt_f) and decoded by tools/gv.py.
+pub fn f_rows(v: &[f64]) -> Vec<f64> {
+    v.to_vec()
+}
